@@ -359,12 +359,21 @@ func (e *env) finishGuarded(h0 int64) (err error, panicked interface{}, stack st
 		defer close(done)
 		panicked, stack = mbt.Catch(func() { err = e.finish(h0) })
 	}()
-	select {
-	case <-done:
-		return
-	case <-time.After(30 * time.Second):
-		return fmt.Errorf("honest traffic did not finish within 30 s: the node is blocked (lock held or queue full)"), nil, ""
+	// escalating deadlines (30 + 60 + 120 s): honest traffic needs milliseconds of CPU; only a node blocked on a lock
+	// or a full queue is still not through after all of them, and then its goroutine is parked inside the consensus code
+	for _, d := range []time.Duration{30 * time.Second, 60 * time.Second, 120 * time.Second} {
+		select {
+		case <-done:
+			return
+		case <-time.After(d):
+		}
 	}
+	desc, parked := parkedIn("main.(*env).finish(")
+	if !parked {
+		<-done // slow, not blocked
+		return
+	}
+	return fmt.Errorf("honest traffic did not get through in 210 s (escalating deadlines) and the goroutine that plays it is parked: the node is blocked (lock held or queue full)\n%s", desc), nil, ""
 }
 
 // ---------------------------------------------------------------------------------------------
